@@ -40,6 +40,48 @@ EstExpr(e) ==
     [] e[1] = "set" -> [Set |-> [i \in 1..Len(e[2]) |-> EstExpr(e[2][i])]]
     [] e[1] = "record" -> [Record |-> [k \in DOMAIN e[2] |-> EstExpr(e[2][k])]]
 
+\* ---- alternative JSON spellings of the same policy: a has-chain written with an attr
+\* array, sets / records of literals and extension constructors written as one Value
+GetPath(b, as) == IF Len(as) = 0 THEN b ELSE
+  LET RECURSIVE G(_) G(k) == IF k = 0 THEN b ELSE <<"get", G(k - 1), as[k]>> IN G(Len(as))
+RECURSIVE ChainOf(_)
+ChainOf(e) ==
+  IF e[1] = "has" THEN <<e[2], <<e[3]>>>>
+  ELSE IF e[1] = "and" /\ e[3][1] = "has"
+       THEN LET ch == ChainOf(e[2])
+            IN IF Len(ch) = 2 /\ e[3][2] = GetPath(ch[1], ch[2]) THEN <<ch[1], Append(ch[2], e[3][3])>> ELSE <<>>
+       ELSE <<>>
+LitJson(v) ==
+  CASE v[1] = "bool" -> v[2]
+    [] v[1] = "long" -> [__long |-> v[2]]
+    [] v[1] = "str" -> [__str |-> v[2]]
+    [] v[1] = "ent" -> [__entity |-> [type |-> v[2], id |-> v[3]]]
+AllLits(es) == \A i \in DOMAIN es : es[i][1] = "lit"
+PlainKeys(r) == \A k \in DOMAIN r : k \notin {"__entity", "__extn", "__expr"}
+RECURSIVE EstAlt(_)
+EstAlt(e) ==
+  CASE e[1] \in {"lit", "var", "slot"} -> EstExpr(e)
+    [] e[1] = "if" -> K1("if-then-else", K1("if", EstAlt(e[2])) @@ K1("then", EstAlt(e[3])) @@ K1("else", EstAlt(e[4])))
+    [] e[1] = "and" -> (LET ch == ChainOf(e)
+                        IN IF Len(ch) = 2 THEN [has |-> [left |-> EstAlt(ch[1]), attr |-> ch[2]]]
+                           ELSE K1("&&", LR(EstAlt(e[2]), EstAlt(e[3]))))
+    [] e[1] = "or" -> K1("||", LR(EstAlt(e[2]), EstAlt(e[3])))
+    [] e[1] = "not" -> K1("!", [arg |-> EstAlt(e[2])])
+    [] e[1] = "neg" -> [neg |-> [arg |-> EstAlt(e[2])]]
+    [] e[1] = "isEmpty" -> [isEmpty |-> [arg |-> EstAlt(e[2])]]
+    [] e[1] = "bin" -> K1(BinKey(e[2]), LR(EstAlt(e[3]), EstAlt(e[4])))
+    [] e[1] = "call" -> (IF e[2] \in {"decimal", "ip", "datetime", "duration"} /\ Len(e[3]) = 1 /\ e[3][1][1] = "lit" /\ e[3][1][2][1] = "str"
+                         THEN [Value |-> [__extn |-> [fn |-> e[2], arg |-> [__str |-> e[3][1][2][2]]]]]
+                         ELSE K1(e[2], [i \in 1..Len(e[3]) |-> EstAlt(e[3][i])]))
+    [] e[1] = "get" -> K1(".", [left |-> EstAlt(e[2]), attr |-> e[3]])
+    [] e[1] = "has" -> [has |-> [left |-> EstAlt(e[2]), attr |-> <<e[3]>>]]
+    [] e[1] = "like" -> [like |-> [left |-> EstAlt(e[2]), pattern |-> [i \in 1..Len(e[3]) |-> PatElem(e[3][i])]]]
+    [] e[1] = "is" -> K1("is", [left |-> EstAlt(e[2]), entity_type |-> e[3]])
+    [] e[1] = "set" -> (IF AllLits(e[2]) THEN [Value |-> [i \in 1..Len(e[2]) |-> LitJson(e[2][i][2])]]
+                        ELSE [Set |-> [i \in 1..Len(e[2]) |-> EstAlt(e[2][i])]])
+    [] e[1] = "record" -> (IF AllLits(e[2]) /\ PlainKeys(e[2]) /\ DOMAIN e[2] # {} THEN [Value |-> [k \in DOMAIN e[2] |-> LitJson(e[2][k][2])]]
+                           ELSE [Record |-> [k \in DOMAIN e[2] |-> EstAlt(e[2][k])]])
+
 EntJ(u) == [type |-> u[2], id |-> u[3]]
 EstScope(v, c) ==
   CASE c[1] = "any" -> [op |-> "All"]
@@ -61,4 +103,5 @@ EstOf(p) ==
    conditions |-> [i \in 1..Len(p.conds) |-> [kind |-> p.conds[i][1], body |-> EstExpr(p.conds[i][2])]],
    annotations |-> [k \in {p.annotations[i][1] : i \in 1..Len(p.annotations)} |->
                       [__str |-> (CHOOSE a \in {p.annotations[i] : i \in 1..Len(p.annotations)} : a[1] = k)[2]]]]
+EstAltOf(p) == [EstOf(p) EXCEPT !.conditions = [i \in 1..Len(p.conds) |-> [kind |-> p.conds[i][1], body |-> EstAlt(p.conds[i][2])]]]
 ==============================================================================
